@@ -25,11 +25,13 @@ func init() {
 var errReader = errors.New("reader failed")
 
 // scriptReader delivers data in chunks described by a script:
-//   "all"      one read
-//   "one"      one byte per read
-//   "z"        one byte per read with a zero-length read before each
-//   "rK"       pseudo-random chunk sizes 1..K (seeded by K)
-//   "dataerr"  the final chunk is returned together with the terminal error
+//
+//	"all"      one read
+//	"one"      one byte per read
+//	"z"        one byte per read with a zero-length read before each
+//	"rK"       pseudo-random chunk sizes 1..K (seeded by K)
+//	"dataerr"  the final chunk is returned together with the terminal error
+//
 // failAt >= 0: the stream fails with errReader after failAt bytes (instead of io.EOF at the end).
 type scriptReader struct {
 	data    []byte
@@ -161,10 +163,24 @@ func jStream(data []byte, mode string, failAt int) {
 			last = off
 			if err != nil {
 				s = append(s, finalClass(err, failAt >= 0))
-				// once failed, the error is sticky
+				// once failed, the error is sticky: no further value, and a stream that ended inside a value does not
+				// turn into a clean end of input on the next call
 				var rm2 json.RawMessage
-				if err2 := sd.Decode(&rm2); err2 == nil {
+				err2 := sd.Decode(&rm2)
+				if err2 == nil {
 					return "DECODE-AFTER-ERROR-SUCCEEDED"
+				}
+				if err != io.EOF && err2 == io.EOF {
+					return "DECODE-AFTER-ERROR-REPORTS-CLEAN-EOF"
+				}
+				// what was read and not consumed is still there: Buffered ++ unread == input from InputOffset on
+				if failAt < 0 {
+					buffered, _ := io.ReadAll(sd.Buffered())
+					rest := data[sr.pos:limit]
+					unconsumed := append(append([]byte(nil), buffered...), rest...)
+					if o := int(sd.InputOffset()); o <= limit && !bytes.Equal(bytes.TrimLeft(unconsumed, " \t\r\n"), bytes.TrimLeft(data[o:limit], " \t\r\n")) {
+						return fmt.Sprintf("BUFFERED-CONTRACT after error off=%d buffered=%d", o, len(buffered))
+					}
 				}
 				break
 			}
@@ -292,7 +308,7 @@ func c11() {
 	// (2) numbers / literals / escapes exactly at the read boundaries 4096, 32768, 65536 (+-2)
 	for _, boundary := range []int{4096, 32768, 65536} {
 		for delta := -3; delta <= 3; delta++ {
-			for _, tok := range []string{"123456", "true", "\"ab\\u00e9cd\"", "-1.5e10", "null", "\"é😀é\"", "[1,2]"} {
+			for _, tok := range []string{"123456", "true", "false", "\"ab\\u00e9cd\"", "-1.5e10", "null", "\"é😀é\"", "[1,2]", "[false]", "{\"a\":null}"} {
 				pad := boundary + delta - len(tok)/2
 				var b bytes.Buffer
 				for b.Len() < pad-8 {
@@ -378,6 +394,20 @@ func fullStreamValues(data []byte) []string {
 // raw control character, non-ASCII), and the reverse order. The whole-buffer scan flags computed for one fill must not
 // survive into the next.
 func flagHygieneStreams() {
+	// literals and numbers cut by a buffer fill at every split point (the parser must ask for more input, not fail)
+	for _, boundary := range []int{4096, 32768} {
+		for _, tok := range []string{"false", "true", "null", "[false]", "{\"k\":false}", "-12.5e+3"} {
+			for cut := 1; cut < len(tok); cut++ {
+				var b bytes.Buffer
+				b.WriteString("0")
+				for b.Len() < boundary-cut {
+					b.WriteByte(' ')
+				}
+				b.WriteString(tok + " 1")
+				jStream(b.Bytes(), "all", -1)
+			}
+		}
+	}
 	for _, boundary := range []int{4096, 32768, 65536} {
 		for _, sep := range []string{" ", "\n"} {
 			for _, tail := range []string{"\"x\\\"y\" 1", "\"bad\\qescape\" 1", "\"tab\there\" 1", "\"\\u00e9\" 2", "\"é\" 3", "\"a\\\\\" \"b\"", "[\"\\\"\",\"\\n\"] 4"} {
